@@ -18,11 +18,11 @@ theorem equivalent_of_step_eq {σ : Type} {f f' : σ → Step σ Ev} (h : f = f'
     (he : Equivalent (⟨σ, f'⟩ : LTS Ev) L2 a b) : Equivalent (⟨σ, f⟩ : LTS Ev) L2 a b := by
   subst h; exact he
 
-theorem codegen_correct_cg (p : Program) (t : Tables) (hp : CgProg p) (hf : frontend p = .ok t) (j : Nat) (r : Routine)
+theorem codegen_correct_cg (lv : Nat) (p : Program) (t : Tables) (hp : CgProg lv p) (hf : frontend p = .ok t) (j : Nat) (r : Routine)
     (hj : p.routines[j]? = some r) :
     ∃ e, (toSrc p).graph.entries[j]? = some (some e) ∧
       Equivalent (toSrc p).graph.lts (labLTS t.ops) e (labEntry t.ops j) := by
-  have hlab : (labelIds t.ops.flatten).Nodup := (frontend_wfl' p t (frontGuard_of_cg p hp) hf).2.1
+  have hlab : (labelIds t.ops.flatten).Nodup := (frontend_wfl' p t (frontGuard_of_cg lv p hp) hf).2.1
   obtain ⟨hm, hseq, hall⟩ := hp
   let cx : Cx := ⟨t.ops, (toSrc p).graph.nodes.toList, hlab⟩
   let fuel : Nat := 1
@@ -44,7 +44,7 @@ theorem codegen_correct_cg (p : Program) (t : Tables) (hp : CgProg p) (hf : fron
       simp only [Except.ok.injEq] at hf
       subst hf
       intro j' r' hj'
-      have := (compileRoutines_cg cx fuel p.routines 0 _ _ _ _ hseq rfl rfl hall rfl rfl (wrapAssert_ok hr)).2 j' r' hj'
+      have := (compileRoutines_cg cx fuel lv p.routines 0 _ _ _ _ hseq rfl rfl hall rfl rfl (wrapAssert_ok hr)).2 j' r' hj'
       simpa using this
   -- every body's source translation only adds nodes
   have henv : PlainEnv ({ labels := [] } : Src.Env) := ⟨rfl, rfl⟩
@@ -54,7 +54,7 @@ theorem codegen_correct_cg (p : Program) (t : Tables) (hp : CgProg p) (hf : fron
     obtain ⟨r', hr', rfl⟩ := List.mem_map.mp hb
     obtain ⟨j', hj', hget⟩ := List.getElem_of_mem hr'
     obtain ⟨its, lb, s1, ops, s2, _, _, _, hrun, _⟩ := hruns j' r' (by rw [List.getElem?_eq_getElem hj', hget])
-    exact (cStmts_c cx fuel r'.body lb (hall r' hr') _ henv _ _ _ hrun).grow k b
+    exact (cStmts_c cx fuel lv r'.body lb (hall r' hr') _ henv _ _ _ hrun).grow k b
   -- the graph
   have hr : (toSrc p).routines = (p.routines.map (·.body)).map fun b => (⟨some (toSrcStmts b)⟩ : Src.Routine) := by
     simp only [toSrc]
@@ -64,7 +64,7 @@ theorem codegen_correct_cg (p : Program) (t : Tables) (hp : CgProg p) (hf : fron
     rw [hr]
     simp only [Src.allRoutineLabels, List.flatMap_eq_nil_iff, List.mem_map]
     rintro x ⟨b, ⟨r', hrm, rfl⟩, rfl⟩
-    exact (cg_stmts_facts r'.body (hall r' hrm)).labs
+    exact (cg_stmts_facts lv r'.body (hall r' hrm)).labs
   let b1 : Src.B := ⟨#[.halt evReturn]⟩
   have hg : (toSrc p).graph = ⟨(((p.routines.map (·.body)).map fun b => (⟨some (toSrcStmts b)⟩ : Src.Routine)).foldl
       (graphStep fuel [] { labels := [] } 0) (b1, [])).1.nodes,
@@ -76,8 +76,8 @@ theorem codegen_correct_cg (p : Program) (t : Tables) (hp : CgProg p) (hf : fron
   obtain ⟨g1, _, paths⟩ := graph_fold fuel [] { labels := [] } 0 (p.routines.map (·.body)) hgrow (b1, [])
   obtain ⟨bj, hent, hfin⟩ := paths j r.body (by simp [hj])
   obtain ⟨its, lb, s1, ops, s2, hits, hl1, hc1, hrun, hshape⟩ := hruns j r hj
-  have hgr : cgStmts r.body = true := hall r (List.mem_of_getElem? hj)
-  have piece := cStmts_c cx fuel r.body lb hgr _ henv _ _ _ hrun
+  have hgr : cgStmts lv r.body = true := hall r (List.mem_of_getElem? hj)
+  have piece := cStmts_c cx fuel lv r.body lb hgr _ henv _ _ _ hrun
   refine ⟨(Src.trStmts fuel [] { labels := [] } (toSrcStmts r.body) 0 bj).2, ?_, ?_⟩
   · rw [hg]; simpa using hent
   -- the node table
